@@ -608,6 +608,39 @@ func (p *c09) RunCase(ctx *runner.Ctx) runner.CaseResult {
 		}
 	default: // byte level and hostile bindings, both grammars
 		values := val.Item{":v1": val.Str("x")}
+		// the work a chain of AND / OR terms costs grows with its length - it does not DOUBLE with every term (a chain of
+		// 48 terms, 560 bytes, would never return). Measured in heap allocations of one evaluation, not by the clock;
+		// checked before the long chains below are evaluated at all
+		chainCost := func(n int, op string, update bool) uint64 {
+			parts := []string{}
+			for i := 0; i < n; i++ {
+				parts = append(parts, fmt.Sprintf("f%d = :v1", i))
+			}
+			expr := strings.Join(parts, " "+op+" ")
+			var m0, m1 runtime.MemStats
+			runtime.ReadMemStats(&m0)
+			if update {
+				updateDirect("SET z = :v1", nil, c09Item, values)
+			} else {
+				matchDirect(expr, nil, c09Item, values)
+			}
+			runtime.ReadMemStats(&m1)
+			x.r.Evals++
+			return m1.Mallocs - m0.Mallocs
+		}
+		chainsExplode := false
+		for _, op := range []string{"AND", "OR"} {
+			c8, c16 := chainCost(8, op, false), chainCost(16, op, false)
+			x.r.Counters["logical_chain_cost_measurements"]++
+			if c16 > 16*c8+100000 {
+				chainsExplode = true
+				x.viol("work-explodes", "logical-chain", fmt.Sprintf("a condition of 16 terms joined by %s costs %d allocations, one of 8 terms %d: the work doubles with every term, a chain of 50 terms (600 bytes) does not terminate in practice", op, c16, c8), map[string]interface{}{"operator": op, "terms_8": c8, "terms_16": c16})
+			}
+		}
+		if chainsExplode {
+			// (the long strings below would not return; the defect is reported, the rest of this case is skipped)
+			return x.r
+		}
 		for i, bs := range byteStrings(r) {
 			p.checkCond(x, bs, nil, values, i%17 == 0, ctx)
 			p.checkUpdate(x, bs, nil, values, i%17 == 0, ctx)
